@@ -123,6 +123,9 @@ func wireOracle(o *corr.Out, sc *scenario) {
 			mr   int
 		}{"server", sc.w.B.WrittenCopy(), mw, mr}
 	}()} {
+		if e.name == "server" && strings.Contains(strings.Join(sc.acts, ";"), "raw!") {
+			continue // the harness itself wrote raw bytes on the server's end: not the server's output
+		}
 		bad := ""
 		var ls, lm uint64
 		var lk drpcwire.Kind
@@ -612,6 +615,7 @@ func famProbe(o *corr.Out, n int) {
 	famPublishAfterRelease(o)
 	famQueuedUnary(o)
 	famHandlerFlush(o)
+	famSoftCancelTokens(o)
 	famLate(o, n/4+2)
 	type cs struct {
 		sends int
@@ -1002,6 +1006,34 @@ func famHandlerFlush(o *corr.Out) {
 			probe(o, sc, "C06:probe-completes", true)
 			finish(o, sc)
 		}
+	}
+}
+
+// famSoftCancelTokens: soft cancel of an idle RPC; the manager's goroutine is held between marking
+// the stream finished and sending its fin token, the next RPC starts meanwhile, and the peer sends
+// a packet that ends that next stream at once (a cancel for a stream it has not been invoked on).
+// The next RPC must complete, or the connection report itself closed.
+func famSoftCancelTokens(o *corr.Out) {
+	for _, kind := range []drpcwire.Kind{drpcwire.KindCancel, drpcwire.KindError, drpcwire.KindClose} {
+		sc := &scenario{cfg: Config{Soft: true}, class: "soft-cancel-tokens"}
+		sc.do("new!n1!1!w.x!1")
+		sc.do("mgrpark")
+		sc.do("can!1")
+		sc.do("inv!u2!2!r1.s1:1.x!1!2")
+		fr := drpcwire.AppendFrame(nil, drpcwire.Frame{ID: drpcwire.ID{Stream: 2, Message: 1}, Kind: kind, Control: kind == drpcwire.KindCancel, Done: true,
+			Data: map[bool][]byte{true: {0, 0, 0, 0, 0, 0, 0, 1, 'x'}, false: nil}[kind == drpcwire.KindError]})
+		sc.do("raw!w1!" + corr.Hex(fr))
+		sc.do("prel!@mgr")
+		ob := sc.do("flow!1")
+		res := sc.results()["u2"]
+		closed := strings.HasSuffix(ob, "X1]")
+		if res != "" || closed {
+			o.OracleOK("C06:next-rpc-completes")
+		} else {
+			o.Oracle("C06:next-rpc-completes", sc.request(), fmt.Sprintf("rpc 2 never returned, connClosed=%v; blocked: %s", closed,
+				strings.Join(sc.w.LastObs().ClientCensus, " | ")))
+		}
+		finish(o, sc)
 	}
 }
 
